@@ -1,11 +1,11 @@
 //! C18 — Evaluation is pure: same answer across calls, clones and threads.
 //!
 //! (A) operation histories, sequential, on the real code: every sequence of length ≤ 3 (quick) /
-//! ≤ 4 (thorough) over an alphabet of 11 operations chosen to collide on the same lazily built
+//! ≤ 4 (thorough) over an alphabet of 15 operations chosen to collide on the same lazily built
 //! tables and shared `Arc`s is executed in one process; every observation must equal the
 //! reference observation of that operation executed **alone in a fresh process**. Because a lazy
 //! table can be first-used only once per process, every permutation of the 6 first-use operations
-//! (720; quick: every 3rd) runs in its own subprocess, followed by all 11 operations.
+//! (720; quick: every 3rd) runs in its own subprocess, followed by all 15 operations.
 //! (B) thread interleavings of first use under loom (hook H2, engine-loom crate run by drivers/c18.py):
 //! every thread's observation in every explored execution equals the sequential reference.
 
@@ -20,16 +20,38 @@ use serde_json::{json, Value};
 use std::collections::{BTreeMap, BTreeSet};
 use std::process::Command;
 
-pub const N_OPS: usize = 11;
+pub const N_OPS: usize = 15;
 pub const FIRST_USE: [usize; 6] = [0, 3, 5, 6, 7, 8];
 
+/// Every evaluating operation starts and ends with the same calls at 2024-07-14 12:00, so that a
+/// one-entry memo / cursor keyed on too little (the date alone, the expression alone, the holidays
+/// alone) is forced to collide between consecutive operations.
+fn common_instant() -> chrono::NaiveDateTime {
+    dt(2024, 7, 14, 12, 0)
+}
+
+fn day_sig<L: opening_hours::localization::Localize>(oh: &OpeningHours<L>) -> String {
+    format!("{:?}", oh.schedule_at(common_instant().date()).into_iter().map(|r| (r.range.start.mins_from_midnight(), r.range.end.mins_from_midnight(), r.kind, r.comments.to_vec())).collect::<Vec<_>>())
+}
+
 fn render_naive(oh: &OpeningHours, ts: &[chrono::NaiveDateTime]) -> String {
-    let mut s = String::new();
+    let mut s = format!("first={:?}/{};", oh.state(common_instant()), day_sig(oh));
     for t in ts {
         s.push_str(&format!("state({t})={:?};next={:?};", oh.state(*t), oh.next_change(*t)));
         s.push_str(&format!("sched={:?};", oh.schedule_at(t.date()).into_iter().map(|r| (r.range.start.mins_from_midnight(), r.range.end.mins_from_midnight(), r.kind, r.comments.to_vec())).collect::<Vec<_>>()));
         s.push_str(&format!("iv={:?};", oh.iter_from(*t).take(5).map(|r| (r.range.start, r.range.end, r.kind)).collect::<Vec<_>>()));
     }
+    s.push_str(&format!("last={}/{:?};", day_sig(oh), oh.state(common_instant())));
+    s
+}
+
+fn render_tz(oh: &OpeningHours<TzLocation<chrono_tz::Tz>>, tz: chrono_tz::Tz, ts: &[chrono::DateTime<chrono_tz::Tz>]) -> String {
+    let t0 = tz.with_ymd_and_hms(2024, 7, 14, 12, 0, 0).unwrap();
+    let mut s = format!("first={:?}/{};", oh.state(t0), day_sig(oh));
+    for t in ts {
+        s.push_str(&format!("state={:?};next={:?};iv={:?};", oh.state(*t), oh.next_change(*t), oh.iter_range(*t, *t + Duration::days(2)).take(5).map(|r| (r.range.start, r.range.end, r.kind)).collect::<Vec<_>>()));
+    }
+    s.push_str(&format!("last={}/{:?};", day_sig(oh), oh.state(t0)));
     s
 }
 
@@ -39,6 +61,13 @@ fn paris() -> Coordinates {
 
 fn nyc() -> Coordinates {
     Coordinates::new(40.71, -74.0).unwrap()
+}
+
+/// A parsed expression shared (by `Arc`) between operations of one process: clones of it are
+/// re-contextualised by operations 11..14.
+fn shared() -> &'static OpeningHours {
+    static SHARED: std::sync::OnceLock<OpeningHours> = std::sync::OnceLock::new();
+    SHARED.get_or_init(|| OpeningHours::parse("sunrise-sunset ; PH off ; SH unknown").unwrap())
 }
 
 /// Execute operation `i`, returning its observation rendered to a string.
@@ -65,11 +94,7 @@ pub fn op(i: usize) -> String {
             let ctx = Context::default().with_holidays(Country::US.holidays()).with_locale(TzLocation::from_coords(paris()));
             let oh = OpeningHours::parse("SH unknown || sunrise-sunset").unwrap().with_context(ctx);
             let tz = chrono_tz::Europe::Paris;
-            let mut s = String::new();
-            for t in [tz.with_ymd_and_hms(2024, 7, 4, 12, 0, 0).unwrap(), tz.with_ymd_and_hms(2024, 12, 23, 8, 0, 0).unwrap()] {
-                s.push_str(&format!("state={:?};next={:?};iv={:?};", oh.state(t), oh.next_change(t), oh.iter_range(t, t + Duration::days(2)).take(5).map(|r| (r.range.start, r.range.end, r.kind)).collect::<Vec<_>>()));
-            }
-            s
+            render_tz(&oh, tz, &[tz.with_ymd_and_hms(2024, 7, 4, 12, 0, 0).unwrap(), tz.with_ymd_and_hms(2024, 12, 23, 8, 0, 0).unwrap()])
         }
         4 | 5 => {
             let c = if i == 4 { Country::FR } else { Country::US };
@@ -96,13 +121,26 @@ pub fn op(i: usize) -> String {
             let n = oh.normalize();
             format!("{n}|{}", render_naive(&n, &t1))
         }
-        _ => {
+        10 => {
             let oh = OpeningHours::parse(oh1_text).unwrap().with_context(Context::default().with_holidays(Country::FR.holidays()));
             let mut it = oh.iter_range(dt(2024, 7, 12, 0, 0), dt(2024, 7, 20, 0, 0));
             let first: Vec<_> = (&mut it).take(3).map(|r| (r.range.start, r.range.end, r.kind)).collect();
             drop(it);
             format!("{first:?}|{}", render_naive(&oh, &t1[..1]))
         }
+        // clones of the shared expression under different contexts
+        11 => {
+            let oh = shared().clone().with_context(Context::default().with_locale(TzLocation::new(chrono_tz::Europe::Paris).with_coords(paris())));
+            let tz = chrono_tz::Europe::Paris;
+            render_tz(&oh, tz, &[tz.with_ymd_and_hms(2024, 6, 21, 6, 30, 0).unwrap()])
+        }
+        12 => {
+            let oh = shared().clone().with_context(Context::default().with_locale(TzLocation::new(chrono_tz::America::New_York).with_coords(nyc())));
+            let tz = chrono_tz::America::New_York;
+            render_tz(&oh, tz, &[tz.with_ymd_and_hms(2024, 6, 21, 6, 30, 0).unwrap()])
+        }
+        13 => render_naive(&shared().clone().with_context(Context::default().with_holidays(Country::FR.holidays())), &t1[..2]),
+        _ => render_naive(&shared().clone().with_context(Context::default().with_holidays(Country::US.holidays())), &t1[..2]),
     }
 }
 
@@ -299,11 +337,11 @@ pub fn run(cfg: &Cfg) -> Outcome {
     acc.sample(json!({"reference_op4": reference[4]}));
     let mut o = Outcome::new("model_checking", acc);
     o.exhaustive = true;
-    o.cov("operation_alphabet", json!(["eval oh1(FR)", "eval clone of oh1", "eval reparsed oh1", "eval oh2(US, Paris coords, tz)", "FR.holidays()", "US.holidays()", "Country::try_from_coords", "TzLocation::from_coords", "parse+eval easter", "normalize+eval", "half-consumed iterator dropped, then eval"]));
+    o.cov("operation_alphabet", json!(["eval oh1(FR)", "eval clone of oh1", "eval reparsed oh1", "eval oh2(US, Paris coords, tz)", "FR.holidays()", "US.holidays()", "Country::try_from_coords", "TzLocation::from_coords", "parse+eval easter", "normalize+eval", "half-consumed iterator dropped, then eval", "shared expr clone @Paris coords", "shared expr clone @NYC coords", "shared expr clone + FR holidays", "shared expr clone + US holidays"]));
     o.cov("history_depth", json!(depth));
     o.cov("loom", loom_cov);
     o.cov("distinct_observed_outcomes_per_operation", json!(distinct));
-    o.cov("rule", json!("explicit enumeration of operation histories on the real code: every sequence of length ≤ depth over the 11-operation alphabet executed in one process (process-wide lazy tables persist across histories), every permutation of the 6 first-use operations (quick: every 3rd of 720) in its own subprocess followed by all 11 operations; oracle: the observation (state, next_change, schedule, first 5 intervals / table summaries rendered to text) of each operation executed alone in a fresh process. (B) loom: 2–4 threads each running 1–3 operations that first-use the holiday / boundary / zone tables through the cfg-switched LazyLock facade, all interleavings up to the preemption bound (3 quick, 5 thorough), loom's Lazy also letting racing threads both run the initialiser. states = histories + permutations + loom executions, transitions = operations compared. The expected result is exactly one distinct outcome per operation (collisions are forced by the construction of the alphabet, not inferred from the count)"));
+    o.cov("rule", json!("explicit enumeration of operation histories on the real code: every sequence of length ≤ depth over the 15-operation alphabet executed in one process (process-wide lazy tables persist across histories), every permutation of the 6 first-use operations (quick: every 3rd of 720) in its own subprocess followed by all 15 operations; oracle: the observation (state, next_change, schedule, first 5 intervals / table summaries rendered to text) of each operation executed alone in a fresh process. (B) loom: 2–4 threads each running 1–3 operations that first-use the holiday / boundary / zone tables through the cfg-switched LazyLock facade, all interleavings up to the preemption bound (3 quick, 5 thorough), loom's Lazy also letting racing threads both run the initialiser. states = histories + permutations + loom executions, transitions = operations compared. The expected result is exactly one distinct outcome per operation (collisions are forced by the construction of the alphabet, not inferred from the count)"));
     o.assume("thread-level interleavings of first use are explored by the loom harness (engine-loom, merged into this evidence by drivers/c18.py); plain memory accesses outside the LazyLock seam are outside any controlled scheduler here — the free-running 8-thread pass is a smoke test, not coverage");
     o
 }
